@@ -156,6 +156,8 @@ def run_case(case):
         sdt = 'float16'
     samples = rng.integers(0, 4, (N, T)).astype(sdt)
     samples[:, 0] = np.arange(N) % 4
+    if T >= 3 and rng.random() < 0.3:
+        samples[:, T - 1] = 2          # a constant sample: the statistic is undefined there (NaN in the results), whatever the discriminant does with it
     mia_fine = klass.startswith('MIA') and rng.random() < 0.4
     if mia_fine:
         # histogram counts are exact for any real samples: double-precision samples a hair on either side of the bin edges k + 0.5
@@ -379,5 +381,26 @@ def run_case(case):
         t.check(tol.same(a.pooled_covariance, one.pooled_covariance), 'results_differ_from_one_shot_statistic', lambda: dict(info, what='pooled_covariance'))
     if conv:
         t.count('runs_with_convergence_step')
+    if klass == 'CPAReverse' and not mia_fine:
+        # two analyses one after the other on the SAME trace set object, with configurations that look alike (same preprocess class with
+        # other parameters, index frames with the same head and tail): each must see its own samples
+        import scared.preprocesses as pp
+        vv = np.asarray(model(sf_formula(v)))
+        long_a = np.array([0] * 12 + [min(1, T - 1)] * 20 + [0] * 12)
+        long_b = np.array([0] * 12 + [T - 1] * 20 + [0] * 12)
+        pairs = [((None, [pp.ToPower(power=2)]), (None, [pp.ToPower(power=3)])),
+                 ((long_a, []), (long_b, [])),
+                 ((None, [pp.CenterOn(mean=np.zeros(T, dtype='float32'))]), (None, [pp.CenterOn(mean=np.ones(T, dtype='float32'))]))]
+        for (cfg1, cfg2) in pairs:
+            for (fr, ch) in (cfg1, cfg2):
+                a2 = scared.CPAReverse(selection_function=scared.reverse_selection_function(lambda v: sf_formula(np.asarray(v))), model=model, precision='float64')
+                a2.run(scared.Container(ths, frame=fr, preprocesses=list(ch)) if fr is not None else scared.Container(ths, preprocesses=list(ch)))
+                X2 = samples[:, fr] if fr is not None else samples
+                for q in ch:
+                    X2 = q(X2)
+                one2 = subjects.make(dict(name='cpa', precision='float64'))
+                one2.update(np.ascontiguousarray(np.asarray(X2)), np.ascontiguousarray(vv))
+                t.count('look_alike_runs_on_one_trace_set')
+                t.check(tol.same(a2.results, one2.compute()), 'results_differ_from_one_shot_statistic', lambda: dict(info, second_analysis=True, frame=repr(fr)[:40], chain=[type(q).__name__ for q in ch]))
     sig = f"{klass}|{N}|{T}|{sdt}|{info['frame']}|{cdesc}|{rule}|{expected_bs}|{cuts}|{precision}|{conv}"
     return t.result(sig=sig, sample=dict(case=case, derived=info, batch_sizes=[len(b) for b in log_ids][:12]))
